@@ -72,12 +72,13 @@ def run(R, env):
                     bid_ok = bid is not None and ((bid[0] == "field" and bid[2] == "batch_id" and is_old(bid[1])) or pend(bid))
                     usr_ok = usr is not None and ((usr[0] == "field" and usr[2] == "user" and is_old(usr[1])) or is_sender(usr))
                     am_ok = False
-                    if pt is not None and am[0] == "call" and am[1] == "std::ops::Add::add":
+                    is_pt = lambda v_: paid(v_) or (pt is not None and norm(v_) == norm(pt))
+                    if am[0] == "call" and am[1] == "std::ops::Add::add":
                         x, y = am[2]
                         for u, v in ((x, y), (y, x)):
-                            if u[0] == "field" and u[2] == "amount" and is_old(u[1]) and norm(v) == norm(pt):
+                            if u[0] == "field" and u[2] == "amount" and is_old(u[1]) and is_pt(v):
                                 am_ok = True
-                    if pt is not None and am[0] == "mut" and am[2].endswith("AddAssign::add_assign") and am[1][0] == "field" and am[1][2] == "amount" and is_old(am[1][1]) and norm(am[3][0]) == norm(pt):
+                    if am[0] == "mut" and am[2].endswith("AddAssign::add_assign") and am[1][0] == "field" and am[1][2] == "amount" and is_old(am[1][1]) and is_pt(am[3][0]):
                         am_ok = True
                     if not (bid_ok and usr_ok and am_ok):
                         good = False
